@@ -5,6 +5,8 @@ from . import cfgfamily, cfgmachine
 
 def run(tier, seed):
     out = cfgmachine.run_machine("C12", ["C12_Fresh"], ["C12_Marks", "C12_Reset"], tier, seed)
-    # second instance: the textual / numeric field classes inside a configuration
-    out = cfgmachine.merge(out, cfgmachine.run_machine("C12", ["C12_Fresh"], ["C12_Marks", "C12_Reset"], tier, seed + 7, schema="SchemaB"))
+    # second instance: the textual / numeric field classes inside a configuration (thorough tier;
+    # the quick tier meets those classes in the generated family)
+    if tier != "quick":
+        out = cfgmachine.merge(out, cfgmachine.run_machine("C12", ["C12_Fresh"], ["C12_Marks", "C12_Reset"], tier, seed + 7, schema="SchemaB"))
     return cfgmachine.merge(out, cfgfamily.run_family("C12", ["C12_Fresh"], ["C12_Marks", "C12_Reset"], tier, seed, then="reset"))
